@@ -36,6 +36,11 @@ func fdDiffSettled(fd0 int) int {
 		runtime.Gosched()
 		d = fdCount() - fd0
 	}
+	if d < 0 {
+		// FEWER descriptors than before the run: the transient descriptor was in the BASELINE listing. A leak is a
+		// descriptor the run opened and left open, i.e. a surplus; a deficit says nothing about the run.
+		return 0
+	}
 	return d
 }
 
